@@ -16,17 +16,20 @@ PROPS = {
     'C09': {
         'lean': ['H8.Props.C09'],
         'gen': ['consts', 'busmap'],
-        'runs': [{'mode': 'bus09', 'shards': 16}],
+        'runs': [{'mode': 'bus09', 'shards': 16}, {'mode': 'step', 'shards': 16}],
         'rule': ('(a) address-space sweep through the real Bus::read/Bus::write (read, write a tag, read back) classified per '
                  'address and compared with the property\'s ranges: thorough = all 2^24 addresses plus bands near 2^31/2^32, '
                  'quick = every region boundary +-0x400 and 2048 random 64-byte windows; (b) seeded random histories of 1-64 '
                  'interleaved byte writes/reads over region edges, holes, >=2^24 and random addresses, with per-op results and '
                  'the complete final contents of all five stores compared against an abstract address->byte map. '
+                 'word / long operations through the CPU\'s access helpers (hooks) at all region boundaries +-5; '
+                 '(c) step run: every MOV form with a memory operand (all addressing modes, @aa:8/16/24 incl. the sign-extended '
+                 'halves of aa:16) executed by the real Cpu from a tagged memory, complete state delta compared with the Spec. '
                  'distinct non-trivial = distinct sweeps, and distinct histories containing at least one successful write.'),
-        'assumptions': ['16/32-bit accesses are exercised through the CPU step harness (C01/C08), not here'],
+        'assumptions': [],
     },
     'C01': {
-        'lean': ['H8.Props.C01', 'H8.Props.C08', 'H8.Props.C01M'],
+        'lean': ['H8.Props.C01', 'H8.Props.C08', 'H8.Props.C01M', 'H8.Props.C01N'],
         'gen': ['consts', 'buscost', 'busmap', 'dispatch'],
         'runs': [{'mode': 'step', 'shards': 16}],
         'rule': "single-step cases on the real Cpu (fetch+exec through the verif hook) from a tagged background memory (every byte = hash of its address) with the full register file, CCR, PC, cost and the complete delta of all five stores compared: per form of spec/isa.tbl every combination of the register fields (x2), all 256 initial CCR values, every value of immediate/bit/condition fields, seeded random instances with boundary-value register files and operand addresses at both ends of on-chip RAM, DRAM and the vector area; address registers with zero upper byte (the upper byte is C08's subject). distinct non-trivial = distinct (form, first instruction bytes, resulting register file) triples of in-domain cases.",
